@@ -476,6 +476,71 @@ def inv6(rep):
               % (missing, len(ss)), construct='all-paths', node=f)
 
 
+def inv7(rep, rule='INV-7'):
+    """Code that shadows `<registry>.changed` (an instance attribute that
+    swallows the notification) suspends INV-1 for the calls it makes in the
+    meantime; it owes the notification itself: the shadow is removed on every
+    path, and every path on which a mutator of that registry was called in
+    between calls `<registry>.changed(<registry>)` after removing it."""
+    from ..sympath import summaries as _S
+    from .sem import nt as _nt
+    MUT = ('register', 'unregister', 'subscribe', 'unsubscribe')
+    n_sites = 0
+    for rel in ('registry.py', 'adapter.py'):
+        m = rep.repo.module(rel)
+        for cls in [c for c in ast.walk(m) if isinstance(c, ast.ClassDef)]:
+            for name, f in sorted(methods_of(cls).items()):
+                if not any(isinstance(x, ast.Attribute) and x.attr == 'changed'
+                           and isinstance(x.ctx, ast.Store) for x in ast.walk(f)):
+                    continue
+                probs = []
+                shadowed = set()
+                for ps in _S(f, normal_only=False):
+                    if getattr(ps, 'infeasible', False):
+                        continue
+                    st = [(k, e) for k, e in enumerate(ps.events)
+                          if e.kind == 'store' and isinstance(e.r, ast.Attribute)
+                          and e.r.attr == 'changed']
+                    if not st:
+                        continue
+                    k0, e0 = st[0]
+                    X = _nt(e0.r.value)
+                    shadowed.add(X)
+                    rm = [k for k, e in enumerate(ps.events) if k > k0 and
+                          e.kind == 'del' and isinstance(e.r, ast.Attribute)
+                          and e.r.attr == 'changed' and _nt(e.r.value) == X]
+                    if not rm:
+                        if ps.kind != 'raise' or ps.ret_node is not None:
+                            probs.append('`%s.changed` stays shadowed on a path' % X)
+                        continue
+                    muts = [e for k, e in enumerate(ps.events) if k0 < k < rm[0]
+                            and e.kind == 'call' and isinstance(e.r, ast.Call)
+                            and isinstance(e.r.func, ast.Attribute)
+                            and e.r.func.attr in MUT and _nt(e.r.func.value) == X]
+                    told = [e for k, e in enumerate(ps.events) if k > rm[0]
+                            and e.kind == 'call' and isinstance(e.r, ast.Call)
+                            and _nt(e.r.func) == '%s.changed' % X]
+                    if muts and not told and ps.kind != 'raise':
+                        conds = [c for c, t, p in ps.order if p >= rm[0]]
+                        probs.append('%s.%s(...) ran with the notification '
+                                     'suppressed and %s.changed(%s) is not called '
+                                     'afterwards (path conditions after the '
+                                     'restore: %s)' % (X, muts[0].r.func.attr, X, X,
+                                                       conds[:3]))
+                if not shadowed:
+                    continue
+                n_sites += 1
+                rep.check(rule, '%s.%s' % (cls.name, name), not probs,
+                          'the notification shadowed on %s is restored on every '
+                          'path and delivered whenever a mutator ran in between'
+                          % sorted(shadowed) if not probs else
+                          {'problems': sorted(set(probs))[:3]},
+                          construct='suspended-changed', node=f)
+    rep.require_soft(n_sites >= 1, '%s: no code shadows a registry\'s changed() '
+                     '(1 confirmed by hand: rebuildUtilityRegistryFromLocalCache)'
+                     % rule)
+
+
 def run(rep):
     repo = rep.repo
     mod = repo.module('adapter.py')
@@ -502,6 +567,9 @@ def run(rep):
     rep.rule('INV-6', 'instance declarations replace __provides__ by another '
              'specification object (a different cache key), never mutate in '
              'place', floor=2)
+    rep.rule('INV-7', 'suspended notification: code that shadows a registry\'s '
+             'changed() while it calls its mutators restores it on every path and '
+             'then delivers changed() on every path on which a mutator ran', floor=1)
     rep.assume('Specification.changed notifies every dependent (C02 R02.2)')
     rep.assume('class declaration changes go through a __bases__ store on the '
                'class specification (C01 R01.4)')
@@ -513,5 +581,6 @@ def run(rep):
     inv4(rep, mod, table)
     inv5(rep, mod, table)
     inv6(rep)
+    inv7(rep)
     from . import cside
     cside.c05(rep)
